@@ -44,6 +44,8 @@ def stress_docs(rnd, n):
              "{{ prod }} one\n\ntwo {{ prod }} and {{ prod }}", "{{ blk }}",
              # a numeric footnote label that is also another element's name
              "## 2023\n\nyear [^2023]\n\n[^2023]: numeric clash", "$$a=b$$ (1)\n\nm [^1]\n\n[^1]: math label clash",
+             # nested line blocks (containers created by the mock state machine)
+             "```{line-block}\nfirst\n  indented\n    deeper\nback\n```",
              # several raw nodes (a hard break makes two)
              "line a\\\nline b and <b>inline</b>\n\n<div>block</div>", "> ---\n\n~~s~~",
              '<div class="admonition">\n<![foo]>\n</div>', '<img src="a.png" alt="x">', '<div class="admonition note">\n<p class="title">T</p>\nbody\n</div>']
